@@ -125,7 +125,28 @@ func c27GenTags(t *rapid.T, label string, max int) map[string]string {
 	return m
 }
 
-func c27GenSpec(t *rapid.T, evKind int) string {
+// c27NearNames: the event's own name and its near misses (a proper prefix, a
+// proper suffix, the other letter case, one character more) - the values a
+// sloppy comparison confuses with the name itself.
+func c27NearNames(name string) []string {
+	if name == "" || strings.ContainsAny(name, "=,\x00") {
+		return nil
+	}
+	r := []rune(name)
+	out := []string{name, name, name + "x", "x" + name}
+	if len(r) > 1 {
+		out = append(out, string(r[:len(r)-1]), string(r[1:]), string(r[:(len(r)+1)/2]), string(r[len(r)/2:]))
+	}
+	if u := strings.ToUpper(name); u != name {
+		out = append(out, u)
+	}
+	if l := strings.ToLower(name); l != name {
+		out = append(out, l)
+	}
+	return out
+}
+
+func c27GenSpec(t *rapid.T, evKind int, evName string) string {
 	n := rapid.SampledFrom([]int{1, 1, 2, 3, 0}).Draw(t, "nfilters")
 	var els []string
 	for i := 0; i < n; i++ {
@@ -137,8 +158,12 @@ func c27GenSpec(t *rapid.T, evKind int) string {
 			el = rapid.SampledFrom(c27EvTypes).Draw(t, "ftype")
 		default:
 			el = rapid.SampledFrom([]string{"user:", "query:"}).Draw(t, "fprefix") + rapid.SampledFrom(c27NamePool).Draw(t, "fname")
-			if evKind >= 5 && rapid.Bool().Draw(t, "famsame") {
-				el = c27EvTypes[evKind] + ":" + rapid.SampledFrom(c27NamePool).Draw(t, "fname2")
+			if evKind >= 5 && rapid.IntRange(0, 3).Draw(t, "famsame") > 0 {
+				names := c27NamePool
+				if near := c27NearNames(evName); near != nil && rapid.IntRange(0, 3).Draw(t, "near") > 0 {
+					names = near
+				}
+				el = c27EvTypes[evKind] + ":" + rapid.SampledFrom(names).Draw(t, "fname2")
 			}
 		}
 		els = append(els, el)
@@ -152,12 +177,19 @@ func genC27(t *rapid.T) c27Case {
 	c.SelfName = c27GenStr(t, "selfname")
 	c.SelfTags = c27GenTags(t, "selftags", 4)
 	c.Reload = rapid.SampledFrom([]int{0, 0, 0, 1, 1, 2, 3, 4}).Draw(t, "reload")
+	if c.EvKind >= 5 {
+		if rapid.IntRange(0, 3).Draw(t, "namekind") == 0 {
+			c.Name = c27GenStr(t, "evname")
+		} else {
+			c.Name = rapid.SampledFrom(c27NamePool).Draw(t, "evname")
+		}
+	}
 	ns := 1
 	if c.EvKind != 6 {
 		ns = rapid.SampledFrom([]int{1, 1, 2, 3}).Draw(t, "nscripts")
 	}
 	for i := 0; i < ns; i++ {
-		s := c27Script{Spec: c27GenSpec(t, c.EvKind)}
+		s := c27Script{Spec: c27GenSpec(t, c.EvKind, c.Name)}
 		s.Exit = rapid.SampledFrom([]int{0, 0, 0, 1, 3}).Draw(t, "exit")
 		if c.EvKind == 6 {
 			s.Out = rapid.SampledFrom(c27OutSizes).Draw(t, "out")
@@ -185,11 +217,6 @@ func genC27(t *rapid.T) c27Case {
 			})
 		}
 	default:
-		if rapid.IntRange(0, 3).Draw(t, "namekind") == 0 {
-			c.Name = c27GenStr(t, "evname")
-		} else {
-			c.Name = rapid.SampledFrom(c27NamePool).Draw(t, "evname")
-		}
 		c.LTime = rapid.Uint64().Draw(t, "ltime")
 		switch rapid.IntRange(0, 5).Draw(t, "payloadkind") {
 		case 0:
@@ -624,6 +651,12 @@ func bodyC27(c c27Case, x *vkit.Ctx) {
 		files, _ := filepath.Glob(fmt.Sprintf("%s.%d.*.env", base, i))
 		sort.Strings(files)
 		got := len(files)
+		for _, el := range strings.Split(s.Spec, ",") {
+			if fam, nm, ok := strings.Cut(el, ":"); ok && fam == evType && nm != nameForFilter && nameForFilter != "" && nm != "" &&
+				(strings.HasPrefix(nameForFilter, nm) || strings.HasSuffix(nameForFilter, nm) || strings.EqualFold(nameForFilter, nm) || strings.Contains(nm, nameForFilter)) {
+				x.Label("spec:near-miss-of-the-event-name")
+			}
+		}
 		if strings.Contains(s.Spec, ",") || strings.Contains(s.Spec, ":") {
 			x.Label("spec:list-or-name")
 			if c.EvKind >= 5 || strings.Contains(s.Spec, ",") {
